@@ -325,7 +325,7 @@ Proof.
   pose proof (erule_general s cx _ _ _ _ _ _ H1) as H2.
   eexists. split; [|split].
   - unfold parse_top. fold s.
-    rewrite (run_mono s false cx _ (parse_fuel s) _ _ H2 (NR _ _)) by (unfold parse_fuel; lia).
+    rewrite (run_mono s false cx _ (parse_fuel s cx) _ _ H2 (NR _ _)) by (pose proof (parse_fuel_ge s cx); lia).
     cbn [parse_content]. f_equal; unfold pb; lia.
   - cbn [rewrap mkerr pe_pos]. f_equal; unfold q, pb; lia.
   - reflexivity.
@@ -387,7 +387,7 @@ Proof.
   { unfold s, rest. rewrite !app_length. reflexivity. }
   exists (rewrap 0 e1). split; [|split].
   - unfold parse_top. fold rest. fold s.
-    rewrite (run_mono s false cx _ (parse_fuel s) _ _ H5 (NR _ _)) by (unfold parse_fuel; lia).
+    rewrite (run_mono s false cx _ (parse_fuel s cx) _ _ H5 (NR _ _)) by (pose proof (parse_fuel_ge s cx); lia).
     cbn [parse_content]. f_equal; unfold q, p1; lia.
   - cbn [rewrap mkerr pe_pos]. rewrite P1. cbn [rewrap fail_err mkerr pe_pos]. f_equal; unfold q, p1; lia.
   - cbn [rewrap mkerr pe_what]. rewrite W1. reflexivity.
